@@ -25,16 +25,18 @@ Theorem tr_checkActive_equiv : forall (reach : bool) (nw : Z) (a : adapter),
   let '(a', first, need) := check_active reach nw a in Return (first, need, ast a', tB a').
 Proof.
   intros reach nw a Hn HS HB HC. unfold time_ok in *.
-  unfold tr_checkActive, check_active. fold_bool.
+  unfold tr_checkActive, check_active.
   destruct thresholds as (-> & -> & -> & -> & ->).
-  rewrite !wrapS64_id by lia.
   destruct a as [e st f lf sn ts tb tc gf]. cbn [ast fc lfc sc tS tB tC] in *.
-  destruct st.
-  - destruct ((kFailInterval <=? nw - ts) && (kFainN <=? lf))%bool; cbn [bindc]; [reflexivity|].
-    destruct (kCheckTime <=? nw - tc); cbn [bindc]; [|reflexivity].
-    destruct ((kOverN <=? f) && ratio_hit (mkA e true f lf sn ts tb tc gf))%bool; reflexivity.
-  - cbn [bindc]. rewrite wrapS64_id by lia. destruct (kTry <=? nw - tb); cbn [bindc]; [|reflexivity].
-    destruct reach; reflexivity.
+  set (rh := ratio_hit (mkA e st f lf sn ts tb tc gf)).
+  replace (ratio_hit (mkA e true f lf sn ts tb tc gf)) with rh by (destruct st; reflexivity).
+  destruct st; cbn [bindc]; rewrite ?wrapS64_id by lia.
+  - (* the model's cases, then the conditions of the translated code: they agree or the case is contradictory *)
+    destruct ((kFailInterval <=? nw - ts) && (kFainN <=? lf))%bool eqn:M1;
+      [|destruct (kCheckTime <=? nw - tc) eqn:M2; [destruct ((kOverN <=? f) && rh)%bool eqn:M3|]];
+      fold_bool; split_ifs; cbn [bindc]; rewrite ?wrapS64_id by lia; fold_bool; split_ifs; cbn [bindc]; try reflexivity; exfalso; lia.
+  - destruct (kTry <=? nw - tb) eqn:M1; destruct reach;
+      fold_bool; split_ifs; cbn [bindc]; try reflexivity; exfalso; lia.
 Qed.
 
 (* checkActive touches status and lastBlockTime only (the model's record keeps every other field) *)
